@@ -172,6 +172,7 @@ type runConfig struct {
 	logQueries string
 	deadline   time.Time
 	verbose    bool
+	initialPrefix []int64
 }
 
 type queue struct {
@@ -805,7 +806,7 @@ type exploreOutcome struct {
 func explore(w *world, entry *ssa.Function, res *results) (timedOut bool, stats solverStats, err error) {
 	q := newQueue()
 	w.q = q
-	q.push(workItem{})
+	q.push(workItem{prefix: w.cfg.initialPrefix})
 	var wg sync.WaitGroup
 	var smu sync.Mutex
 	nw := w.cfg.workers
